@@ -171,6 +171,8 @@ def ds(e):
         return (op, ds(e[1])) + e[2:]
     if op == "index":
         return ("index", ds(e[1]), ds(e[2]))
+    if op == "mut":
+        return ("mut", ds(e[1]), e[2])
     return e
 
 
@@ -207,6 +209,8 @@ def walk(e, seen=None):
             stack.extend((x[2], x[3]))
         elif op in ("unop", "cast"):
             stack.append(x[2])
+        elif op == "mut":
+            stack.append(x[1])
         elif op in ("field", "index", "downcast", "deref", "ref", "discr"):
             stack.append(x[1])
             if op == "index":
@@ -253,13 +257,16 @@ def fmt(e, depth=0):
         return "discr(%s)" % fmt(e[1], depth + 1)
     if op == "phi":
         return "φ%s" % (e[2] or "_%d" % e[1])
+    if op == "mut":
+        return "%s⟦arg%d'⟧" % (fmt(e[1], depth + 1), e[2])
     return str(e)
 
 
 class Body:
-    def __init__(self, prog, raw, promoted_of=None):
+    def __init__(self, prog, raw, promoted_of=None, track_mut=False):
         self.prog = prog
         self.raw = raw
+        self.track_mut = track_mut   # treat `f(&mut v, ..)` as a (killing) definition of local v (Engine D)
         self.key = raw.get("key")
         self.kind = raw.get("kind")
         self.name = raw.get("name")
@@ -340,7 +347,7 @@ class Body:
         if len(defs) != 1:
             return None  # drop flags etc. are multiply assigned: never pruned
         bb, idx = defs[0]
-        if idx == "term" or bb == "entry":
+        if idx == "term" or bb == "entry" or isinstance(idx, tuple):
             return None
         rv = self.blocks[bb]["stmts"][idx]["rv"]
         if rv["k"] == "use" and rv["a"]["k"] == "const":
@@ -424,8 +431,60 @@ class Body:
                     defs.setdefault(d["l"], []).append((bi, "term"))
                 else:
                     stores.append((bi, "term", d))
+                if self.track_mut:
+                    for ai, v in self._mut_borrowed_args(bi):
+                        defs.setdefault(v, []).append((bi, ("mut", ai)))
         self._defs = defs
         self._stores = stores
+
+    def _mut_borrow_map(self):
+        """temp local → local it mutably borrows as a whole (`_t = &mut _v`, or a reborrow `&mut *_t2` of such a temp);
+        only temps assigned exactly once"""
+        if getattr(self, "_mbm", None) is not None:
+            return self._mbm
+        count = {}
+        src = {}
+        for b in self.blocks:
+            if b["cleanup"]:
+                continue
+            for s in b["stmts"]:
+                if s["k"] == "assign" and not s["dst"]["p"]:
+                    l = s["dst"]["l"]
+                    count[l] = count.get(l, 0) + 1
+                    rv = s["rv"]
+                    if rv["k"] in ("ref", "rawptr") and rv["mut"]:
+                        src[l] = rv["pl"]
+            t = b["term"]
+            if t["k"] == "call" and not t["dst"]["p"]:
+                count[t["dst"]["l"]] = count.get(t["dst"]["l"], 0) + 1
+        m = {}
+        for l, pl in src.items():
+            if count.get(l) != 1:
+                continue
+            cur = pl
+            for _ in range(4):
+                if not cur["p"]:
+                    m[l] = cur["l"]
+                    break
+                if cur["p"] == ["deref"] and cur["l"] in src and count.get(cur["l"]) == 1:
+                    cur = src[cur["l"]]
+                    continue
+                break
+        self._mbm = m
+        return m
+
+    def _mut_borrowed_args(self, bb):
+        """[(arg index, local v)] for call arguments that are `&mut v` of a whole local"""
+        t = self.blocks[bb]["term"]
+        out = []
+        m = self._mut_borrow_map()
+        for ai, a in enumerate(t["args"]):
+            if a["k"] not in ("move", "copy") or a["pl"]["p"]:
+                continue
+            v = m.get(a["pl"]["l"])
+            if v is not None and v > self.arg_count or (v is not None and v >= 1):
+                out.append((ai, v))
+        return out
 
     def defs_of(self, l):
         self._collect_defs()
@@ -457,6 +516,9 @@ class Body:
             t = blk["term"]
             if t["k"] == "call" and not t["dst"]["p"]:
                 g[t["dst"]["l"]] = {(b, "term")}
+            if t["k"] == "call" and self.track_mut:
+                for ai, v in self._mut_borrowed_args(b):
+                    g[v] = {(b, ("mut", ai))}
             gen[b] = g
         rd_in = {b: {} for b in blocks}
         entry = {l: {("entry", l)} for l in range(1, self.arg_count + 1)}
@@ -674,6 +736,8 @@ class Body:
             bb, idx = d
             if idx == "term":
                 e = self.call_expr(bb)
+            elif isinstance(idx, tuple) and idx[0] == "mut":
+                e = ("mut", self.call_expr(bb), idx[1])
             else:
                 s = self.blocks[bb]["stmts"][idx]
                 if s["k"] == "setdiscr" or s["dst"]["p"]:
@@ -808,6 +872,14 @@ class Program:
         self.exported = set(facts["exported"])
         self._closure_sites = None
         self._callers = None
+
+    def tracked(self, body):
+        """the same body with mutation-through-&mut tracked as definitions (Engine D)"""
+        if not hasattr(self, "_tracked"):
+            self._tracked = {}
+        if body.key not in self._tracked:
+            self._tracked[body.key] = Body(self, body.raw, track_mut=True)
+        return self._tracked[body.key]
 
     def find(self, suffix, required=True):
         """unique body whose key ends with `suffix`"""
